@@ -126,6 +126,25 @@ Definition ArbitraryGridMotionTypeName := map s ["Null"; "UserDefined"; "NonDefo
 Definition SimulationTypeName := map s ["Null"; "UserDefined"; "TimeAccurate"; "NonTimeAccurate"]%string.
 Definition GoverningEquationsTypeName := map s ["Null"; "UserDefined"; "FullPotential"; "Euler"; "NSLaminar"; "NSTurbulent";
   "NSLaminarIncompressible"; "NSTurbulentIncompressible"; "LatticeBoltzmann"]%string.
+Definition ModelTypeName := map s ["Null"; "UserDefined"; "Ideal"; "VanderWaals"; "Constant"; "PowerLaw"; "SutherlandLaw";
+  "ConstantPrandtl"; "EddyViscosity"; "ReynoldsStress"; "ReynoldsStressAlgebraic"; "Algebraic_BaldwinLomax";
+  "Algebraic_CebeciSmith"; "HalfEquation_JohnsonKing"; "OneEquation_BaldwinBarth"; "OneEquation_SpalartAllmaras";
+  "TwoEquation_JonesLaunder"; "TwoEquation_MenterSST"; "TwoEquation_Wilcox"; "CaloricallyPerfect"; "ThermallyPerfect";
+  "ConstantDensity"; "RedlichKwong"; "Frozen"; "ThermalEquilib"; "ThermalNonequilib"; "ChemicalEquilibCurveFit";
+  "ChemicalEquilibMinimization"; "ChemicalNonequilib"; "EMElectricField"; "EMMagneticField"; "EMConductivity"; "Voltage";
+  "Interpolated"; "Equilibrium_LinRessler"; "Chemistry_LinRessler"]%string.
+Definition ParticleGoverningEquationsTypeName := map s ["Null"; "UserDefined"; "DEM"; "DSMC"; "SPH"]%string.
+Definition ParticleModelTypeName := map s ["Null"; "UserDefined"; "Linear"; "NonLinear"; "HardSphere"; "SoftSphere";
+  "LinearSpringDashpot"; "Pair"; "HertzMindlin"; "HertzKuwabaraKono"; "ORourke"; "Stochastic"; "NonStochastic"; "NTC";
+  "KelvinHelmholtz"; "KelvinHelmholtzACT"; "RayleighTaylor"; "KelvinHelmholtzRayleighTaylor"; "ReitzKHRT"; "TAB"; "ETAB";
+  "LISA"; "SHF"; "PilchErdman"; "ReitzDiwakar"; "Sphere"; "NonSphere"; "Tracer"; "BeetstraVanDerHoefKuipers"; "Ergun";
+  "CliftGrace"; "Gidaspow"; "HaiderLevenspiel"; "PlessisMasliyah"; "SyamlalOBrien"; "SaffmanMei"; "TennetiGargSubramaniam";
+  "Tomiyama"; "Stokes"; "StokesCunningham"; "WenYu"; "BaiGosman"; "Kunkhe"; "Boil"; "Condense"; "Flash"; "Nucleate"; "Chiang";
+  "Frossling"; "FuchsKnudsen"]%string.
+Definition WallFunctionTypeName := map s ["Null"; "UserDefined"; "Generic"]%string.
+Definition AreaTypeName := map s ["Null"; "UserDefined"; "BleedArea"; "CaptureArea"]%string.
+Definition AverageInterfaceTypeName := map s ["Null"; "UserDefined"; "AverageAll"; "AverageCircumferential"; "AverageRadial";
+  "AverageI"; "AverageJ"; "AverageK"]%string.
 Definition units5 := [MassUnitsName; LengthUnitsName; TimeUnitsName; TemperatureUnitsName; AngleUnitsName].
 Definition units3 := [ElectricCurrentUnitsName; SubstanceAmountUnitsName; LuminousIntensityUnitsName].
 
@@ -138,7 +157,10 @@ Definition model_enum_tables : list (bytes * list bytes) :=
    (s "ElectricCurrentUnitsName", ElectricCurrentUnitsName); (s "SubstanceAmountUnitsName", SubstanceAmountUnitsName);
    (s "LuminousIntensityUnitsName", LuminousIntensityUnitsName);
    (s "RigidGridMotionTypeName", RigidGridMotionTypeName); (s "ArbitraryGridMotionTypeName", ArbitraryGridMotionTypeName);
-   (s "SimulationTypeName", SimulationTypeName); (s "GoverningEquationsTypeName", GoverningEquationsTypeName)].
+   (s "SimulationTypeName", SimulationTypeName); (s "GoverningEquationsTypeName", GoverningEquationsTypeName);
+   (s "ModelTypeName", ModelTypeName); (s "ParticleGoverningEquationsTypeName", ParticleGoverningEquationsTypeName);
+   (s "ParticleModelTypeName", ParticleModelTypeName); (s "WallFunctionTypeName", WallFunctionTypeName);
+   (s "AreaTypeName", AreaTypeName); (s "AverageInterfaceTypeName", AverageInterfaceTypeName)].
 
 (* ---- data types ---------------------------------------------------------------------------------------------- *)
 Definition dMT := s "MT". Definition dC1 := s "C1". Definition dI4 := s "I4". Definition dI8 := s "I8".
@@ -288,7 +310,14 @@ Inductive kind :=
 | KDescr | KDataClass | KUnits | KAddUnits | KExponents | KAddExponents | KConversion | KOrdinal | KUserData
 (* tranche 2 *)
 | KDiscrete | KIntegral | KRefState | KConverg | KRMotion | KAMotion | KBIter | KZIter | KSimType | KGravity
-| KAxisym | KRotating | KEqSet | KGoverning | KEqDim.
+| KAxisym | KRotating | KEqSet | KGoverning | KEqDim
+(* tranche 3 *)
+| KPZone | KPCoor | KPSol | KPIter | KPEqSet | KPGoverning | KPModColl | KPModBreak | KPModForce | KPModWall | KPModPhase
+| KSubReg
+| KBProp | KWallFn | KWallFnType | KArea | KAreaType | KCProp | KPeriodic | KAverage | KAverageType
+| KModGas | KModVisc | KModCond | KModClosure | KModTurb | KModRelax | KModChem | KModEMElec | KModEMMagn | KModEMCond
+| KDiffusion
+| KFamBCDataSet | KAddFamName.
 Scheme Equality for kind.
 Definition kind_eqb := kind_beq.
 
@@ -299,12 +328,16 @@ Definition all_kinds : list kind :=
    KInterp; KHole; KHoleRange; KFamily; KFamilyBC; KFamName; KFamFamName; KGeoRef; KGeoFile; KGeoFormat; KGeoEntity;
    KDescr; KDataClass; KUnits; KAddUnits; KExponents; KAddExponents; KConversion; KOrdinal; KUserData;
    KDiscrete; KIntegral; KRefState; KConverg; KRMotion; KAMotion; KBIter; KZIter; KSimType; KGravity; KAxisym;
-   KRotating; KEqSet; KGoverning; KEqDim].
+   KRotating; KEqSet; KGoverning; KEqDim;
+   KPZone; KPCoor; KPSol; KPIter; KPEqSet; KPGoverning; KPModColl; KPModBreak; KPModForce; KPModWall; KPModPhase; KSubReg;
+   KBProp; KWallFn; KWallFnType; KArea; KAreaType; KCProp; KPeriodic; KAverage; KAverageType;
+   KModGas; KModVisc; KModCond; KModClosure; KModTurb; KModRelax; KModChem; KModEMElec; KModEMMagn; KModEMCond; KDiffusion;
+   KFamBCDataSet; KAddFamName].
 
 Inductive card := COne | COpt | CMany.
 Definition card_ok (cd : card) (n : nat) : bool :=
   match cd with COne => (n =? 1)%nat | COpt => (n <=? 1)%nat | CMany => true end.
-Inductive ctxrule := CxKeep | CxBase | CxZone.
+Inductive ctxrule := CxKeep | CxBase | CxPZone | CxZone.
 Record slot := mkSlot { s_kind : kind; s_card : card; s_sorted : bool }.
 Record kspec := mkSpec {
   k_label : bytes;               (* the node label the writer emits and the reader collects *)
@@ -325,17 +358,23 @@ Definition dddu := ddd ++ [many KUserData].
 Definition q := s.
 Definition lab_int_idim := s """int[IndexDimension]""".
 
+Definition fmodel (label name : bytes) (extra : list slot) : kspec :=
+  mkSpec label (Some name) false (SEnum ModelTypeName) CxKeep (ddd ++ [many KArray; many KUserData] ++ extra).
+Definition pmodel (label name : bytes) : kspec :=
+  mkSpec label (Some name) false (SEnum ParticleModelTypeName) CxKeep (ddd ++ [many KArray; many KUserData]).
+
 Definition spec (k : kind) : kspec :=
   match k with
   | KRoot => mkSpec (s "Root Node of ADF File") None false SNone CxKeep [one KVersion; many KBase]
   | KVersion => mkSpec (s "CGNSLibraryVersion_t") (Some (s "CGNSLibraryVersion")) false (SArr [dR4] (Some [DFix 1])) CxKeep []
   | KBase => mkSpec (s "CGNSBase_t") None false (SI4 [DFix 2]) CxBase
       ([sorted KZone; many KFamily] ++ dddu ++
-       [opt KRefState; opt KGravity; opt KAxisym; opt KRotating; opt KConverg; opt KEqSet; many KIntegral; opt KSimType; opt KBIter])
+       [opt KRefState; opt KGravity; opt KAxisym; opt KRotating; opt KConverg; opt KEqSet; many KIntegral; opt KSimType; opt KBIter;
+        sorted KPZone; opt KPEqSet])
   | KZone => mkSpec (s "Zone_t") None false (SSize [DIdim; DFix 3]) CxZone
       ([opt KZoneType; many KGrid; many KElements; opt KFamName; many KSol; many KZGC; opt KZoneBC] ++ dddu ++
        [opt KOrdinal; many KDiscrete; many KIntegral; opt KRefState; opt KConverg; opt KEqSet; many KRMotion;
-        many KAMotion; opt KZIter; opt KRotating])
+        many KAMotion; opt KZIter; opt KRotating; many KSubReg; many KAddFamName])
   | KZoneType => mkSpec (s "ZoneType_t") (Some (s "ZoneType")) false (SEnum ZoneTypeName) CxKeep []
   | KGrid => mkSpec (s "GridCoordinates_t") None false SNone CxKeep ([opt KRind; many KArray] ++ dddu)
   | KArray => mkSpec (s "DataArray_t") None false (SArr dts_array None) CxKeep (ddd ++ [opt KConversion; opt KExponents])
@@ -353,7 +392,7 @@ Definition spec (k : kind) : kspec :=
   | KZoneBC => mkSpec (s "ZoneBC_t") (Some (s "ZoneBC")) false SNone CxKeep ([many KBC] ++ dddu ++ [opt KRefState])
   | KBC => mkSpec (s "BC_t") None false (SEnum BCTypeName) CxKeep
       ([opt KGridLoc; opt KPointList; opt KPointRange; opt KFamName; opt KNormalList; opt KNormalIndex; many KBCDataSet]
-       ++ dddu ++ [opt KRefState; opt KOrdinal])
+       ++ dddu ++ [opt KRefState; opt KOrdinal; opt KBProp; many KAddFamName])
   | KPointList => mkSpec (s "IndexArray_t") (Some (s "PointList")) true (SSize [DIdim; DAny]) CxKeep []
   | KPointRange => mkSpec (s "IndexRange_t") (Some (s "PointRange")) true (SSize [DIdim; DFix 2]) CxKeep []
   | KNormalList => mkSpec (s "IndexArray_t") (Some (s "InwardNormalList")) true (SArr dts_real (Some [DPhys; DAny])) CxKeep []
@@ -365,12 +404,12 @@ Definition spec (k : kind) : kspec :=
   | KZGC => mkSpec (s "ZoneGridConnectivity_t") None false SNone CxKeep
       [many KHole; many KConn; many K1to1; many KDescr; many KUserData]
   | K1to1 => mkSpec (s "GridConnectivity1to1_t") None false SStr CxKeep
-      [one KPointRange; one KPointRangeDonor; opt KTransform; opt KOrdinal; many KDescr; many KUserData]
+      [one KPointRange; one KPointRangeDonor; opt KTransform; opt KOrdinal; many KDescr; many KUserData; opt KCProp]
   | KTransform => mkSpec lab_int_idim (Some (s "Transform")) false (SI4 [DIdim]) CxKeep []
   | KPointRangeDonor => mkSpec (s "IndexRange_t") (Some (s "PointRangeDonor")) true (SSize [DIdim; DFix 2]) CxKeep []
   | KConn => mkSpec (s "GridConnectivity_t") None false SStr CxKeep
       [opt KGridLoc; opt KPointList; opt KPointRange; opt KPointListDonor; opt KCellListDonor; opt KInterp;
-       opt KConnType; opt KOrdinal; many KDescr; many KUserData]
+       opt KConnType; opt KOrdinal; many KDescr; many KUserData; opt KCProp]
   | KConnType => mkSpec (s "GridConnectivityType_t") (Some (s "GridConnectivityType")) false
       (SEnum GridConnectivityTypeName) CxKeep []
   | KPointListDonor => mkSpec (s "IndexArray_t") (Some (s "PointListDonor")) true (SSize [DAny; DAny]) CxKeep []
@@ -381,7 +420,7 @@ Definition spec (k : kind) : kspec :=
   | KHoleRange => mkSpec (s "IndexRange_t") None false (SSize [DIdim; DFix 2]) CxKeep []
   | KFamily => mkSpec (s "Family_t") None false SNone CxKeep
       [many KFamFamName; many KFamilyBC; many KGeoRef; many KDescr; many KFamily; opt KOrdinal; many KUserData; opt KRotating]
-  | KFamilyBC => mkSpec (s "FamilyBC_t") None false (SEnum BCTypeName) CxKeep []
+  | KFamilyBC => mkSpec (s "FamilyBC_t") None false (SEnum BCTypeName) CxKeep [many KFamBCDataSet]
   | KFamName => mkSpec (s "FamilyName_t") (Some (s "FamilyName")) false SStr CxKeep []
   | KFamFamName => mkSpec (s "FamilyName_t") None false SStr CxKeep []
   | KGeoRef => mkSpec (s "GeometryReference_t") None false SNone CxKeep
@@ -400,7 +439,8 @@ Definition spec (k : kind) : kspec :=
   | KConversion => mkSpec (s "DataConversion_t") (Some (s "DataConversion")) false (SArr dts_real (Some [DFix 2])) CxKeep []
   | KOrdinal => mkSpec (s "Ordinal_t") (Some (s "Ordinal")) false (SI4 [DFix 1]) CxKeep []
   | KUserData => mkSpec (s "UserDefinedData_t") None false SNone CxKeep
-      (ddd ++ [many KArray; opt KGridLoc; opt KFamName; opt KOrdinal; opt KPointList; opt KPointRange; many KUserData])
+      (ddd ++ [many KArray; opt KGridLoc; opt KFamName; opt KOrdinal; opt KPointList; opt KPointRange; many KUserData;
+               many KAddFamName])
   (* ---- tranche 2 *)
   | KDiscrete => mkSpec (s "DiscreteData_t") None false SNone CxKeep
       ([opt KGridLoc; opt KRind; opt KPointList; opt KPointRange; many KArray] ++ dddu)
@@ -417,10 +457,63 @@ Definition spec (k : kind) : kspec :=
   | KAxisym => mkSpec (s "Axisymmetry_t") (Some (s "Axisymmetry")) false SNone CxKeep ([many KArray] ++ dddu)
   | KRotating => mkSpec (s "RotatingCoordinates_t") (Some (s "RotatingCoordinates")) false SNone CxKeep ([many KArray] ++ dddu)
   | KEqSet => mkSpec (s "FlowEquationSet_t") (Some (s "FlowEquationSet")) false SNone CxKeep
-      ([opt KEqDim; opt KGoverning] ++ dddu)
+      ([opt KEqDim; opt KGoverning] ++ dddu ++
+       [opt KModGas; opt KModVisc; opt KModCond; opt KModClosure; opt KModTurb; opt KModRelax; opt KModChem; opt KModEMElec;
+        opt KModEMMagn; opt KModEMCond])
   | KEqDim => mkSpec (s """int""") (Some (s "EquationDimension")) false (SI4 [DFix 1]) CxKeep []
+  (* ---- tranche 3: particles (the cg_particle_ writers, the cgi_read_particle readers) *)
+  | KPZone => mkSpec (s "ParticleZone_t") None false (SSize [DFix 1]) CxPZone
+      ([many KPCoor; opt KFamName; many KAddFamName; many KPSol] ++ ddd ++
+       [opt KPEqSet; many KIntegral; opt KRefState; opt KPIter; many KUserData])
+  | KPCoor => mkSpec (s "ParticleCoordinates_t") None false SNone CxKeep ([many KArray] ++ dddu)
+  | KPSol => mkSpec (s "ParticleSolution_t") None false SNone CxKeep ([opt KPointList; opt KPointRange; many KArray] ++ dddu)
+  | KPIter => mkSpec (s "ParticleIterativeData_t") None false SNone CxKeep ([many KArray] ++ dddu)
+  | KPEqSet => mkSpec (s "ParticleEquationSet_t") (Some (s "ParticleEquationSet")) false SNone CxKeep
+      ([opt KEqDim; opt KPGoverning; opt KPModColl; opt KPModBreak; opt KPModForce; opt KPModWall; opt KPModPhase] ++ dddu)
+  | KPGoverning => mkSpec (s "ParticleGoverningEquations_t") (Some (s "ParticleGoverningEquations")) false
+      (SEnum ParticleGoverningEquationsTypeName) CxKeep [many KDescr; many KUserData]
+  | KPModColl => pmodel (s "ParticleCollisionModel_t") (s "ParticleCollisionModel")
+  | KPModBreak => pmodel (s "ParticleBreakupModel_t") (s "ParticleBreakupModel")
+  | KPModForce => pmodel (s "ParticleForceModel_t") (s "ParticleForceModel")
+  | KPModWall => pmodel (s "ParticleWallInteractionModel_t") (s "ParticleWallInteractionModel")
+  | KPModPhase => pmodel (s "ParticlePhaseChangeModel_t") (s "ParticlePhaseChangeModel")
+  (* zone sub-regions (the cg_subreg_ writers, cgi_read_subregion); BCRegionName / GridConnectivityRegionName are Descriptor_t *)
+  | KSubReg => mkSpec (s "ZoneSubRegion_t") None false (SI4 [DFix 1]) CxKeep
+      (ddd ++ [many KArray; opt KGridLoc; opt KFamName; many KAddFamName; opt KPointList; opt KPointRange; opt KRind;
+               many KUserData])
+  (* BC and connectivity properties (cgi_read_bprop, cgi_read_cprop) *)
+  | KBProp => mkSpec (s "BCProperty_t") (Some (s "BCProperty")) false SNone CxKeep
+      [many KDescr; many KUserData; opt KWallFn; opt KArea]
+  | KWallFn => mkSpec (s "WallFunction_t") (Some (s "WallFunction")) false SNone CxKeep
+      [many KDescr; many KUserData; one KWallFnType]
+  | KWallFnType => mkSpec (s "WallFunctionType_t") (Some (s "WallFunctionType")) false (SEnum WallFunctionTypeName) CxKeep []
+  | KArea => mkSpec (s "Area_t") (Some (s "Area")) false SNone CxKeep [many KDescr; many KUserData; one KAreaType; many KArray]
+  | KAreaType => mkSpec (s "AreaType_t") (Some (s "AreaType")) false (SEnum AreaTypeName) CxKeep []
+  | KCProp => mkSpec (s "GridConnectivityProperty_t") (Some (s "GridConnectivityProperty")) false SNone CxKeep
+      [many KDescr; many KUserData; opt KAverage; opt KPeriodic]
+  | KPeriodic => mkSpec (s "Periodic_t") (Some (s "Periodic")) false SNone CxKeep (ddd ++ [many KUserData; many KArray])
+  | KAverage => mkSpec (s "AverageInterface_t") (Some (s "AverageInterface")) false SNone CxKeep
+      [many KDescr; many KUserData; one KAverageType]
+  | KAverageType => mkSpec (s "AverageInterfaceType_t") (Some (s "AverageInterfaceType")) false
+      (SEnum AverageInterfaceTypeName) CxKeep []
+  (* the model nodes of a flow equation set (cg_model_write, cgi_read_model): the node name is the label without "_t" *)
+  | KModGas => fmodel (s "GasModel_t") (s "GasModel") []
+  | KModVisc => fmodel (s "ViscosityModel_t") (s "ViscosityModel") []
+  | KModCond => fmodel (s "ThermalConductivityModel_t") (s "ThermalConductivityModel") []
+  | KModClosure => fmodel (s "TurbulenceClosure_t") (s "TurbulenceClosure") []
+  | KModTurb => fmodel (s "TurbulenceModel_t") (s "TurbulenceModel") [opt KDiffusion]
+  | KModRelax => fmodel (s "ThermalRelaxationModel_t") (s "ThermalRelaxationModel") []
+  | KModChem => fmodel (s "ChemicalKineticsModel_t") (s "ChemicalKineticsModel") []
+  | KModEMElec => fmodel (s "EMElectricFieldModel_t") (s "EMElectricFieldModel") []
+  | KModEMMagn => fmodel (s "EMMagneticFieldModel_t") (s "EMMagneticFieldModel") []
+  | KModEMCond => fmodel (s "EMConductivityModel_t") (s "EMConductivityModel") []
+  | KDiffusion => mkSpec (s """int[1+...+IndexDimension]""") (Some (s "DiffusionModel")) false (SI4 [DAny]) CxKeep []
+  (* family tree *)
+  | KFamBCDataSet => mkSpec (s "FamilyBCDataSet_t") None false (SEnum BCTypeName) CxKeep
+      (ddd ++ [opt KRefState; opt KBCDataD; opt KBCDataN; many KUserData])
+  | KAddFamName => mkSpec (s "AdditionalFamilyName_t") None false SStr CxKeep []
   | KGoverning => mkSpec (s "GoverningEquations_t") (Some (s "GoverningEquations")) false
-      (SEnum GoverningEquationsTypeName) CxKeep (many KDescr :: [many KUserData])
+      (SEnum GoverningEquationsTypeName) CxKeep [many KDescr; many KUserData; opt KDiffusion]
   end.
 
 (* the name of a kind in scripts and canonical output: label[.fixed name] *)
@@ -474,6 +567,7 @@ Definition ctx_pre_t (k : kind) (c : ctx) (kids : list tree) : ctx :=
                 | None => STRUCTURED
                 end in
       mkCtx (cx_cell c) (cx_phys c) (idim_of c zt) []
+  | CxPZone => mkCtx (cx_cell c) (cx_phys c) 1 []          (* cgi_read_particle: "Reset Idim" *)
   | _ => c
   end.
 Definition ctx_pre_e (k : kind) (c : ctx) (kids : list ent) : ctx :=
@@ -484,6 +578,7 @@ Definition ctx_pre_e (k : kind) (c : ctx) (kids : list ent) : ctx :=
                 | None => STRUCTURED
                 end in
       mkCtx (cx_cell c) (cx_phys c) (idim_of c zt) []
+  | CxPZone => mkCtx (cx_cell c) (cx_phys c) 1 []
   | _ => c
   end.
 (* after: Cdim / Pdim from the base's data, CurrentDim from the zone's *)
@@ -491,6 +586,7 @@ Definition ctx_post (k : kind) (c : ctx) (v : pval) : ctx :=
   match k_ctx (spec k), v with
   | CxBase, VInts _ [cd; pd] => mkCtx cd pd 0 []
   | CxZone, VInts _ vals => mkCtx (cx_cell c) (cx_phys c) (cx_idim c) vals
+  | CxPZone, VInts _ vals => mkCtx (cx_cell c) (cx_phys c) (cx_idim c) vals      (* CurrentParticleSize *)
   | _, _ => c
   end.
 
@@ -545,8 +641,35 @@ Definition arrays_loadable (sl : list (list rnode)) (parent : kind) : bool :=
 Definition post_ok (k : kind) (c : ctx) (v : pval) (sl : list (list rnode)) : bool :=
   match k with
   | KBCDataD | KBCDataN | KIntegral | KRefState | KConverg | KRMotion | KAMotion | KBIter | KZIter | KGravity | KAxisym
-  | KRotating =>
+  | KRotating | KPIter =>
       arrays_loadable sl k
+  (* cgi_read_model / cgi_read_particle_model: loaded arrays of one element *)
+  | KModGas | KModVisc | KModCond | KModClosure | KModTurb | KModRelax | KModChem | KModEMElec | KModEMMagn | KModEMCond
+  | KPModColl | KPModBreak | KPModForce | KPModWall | KPModPhase =>
+      arrays_loadable sl k && forallb (fun a => zs_eqb (arr_dims a) [1]) (slot_of sl KArray k)
+  (* cgi_read_particle: the count; coordinates and fields have one dimension of that size *)
+  | KPZone => match v with VInts _ [n] => 0 <=? n | _ => false end
+  | KPCoor =>
+      forallb (fun a => zs_eqb (arr_dims a) [nth 0 (cx_zsize c) 0] && dt_in dts_real (arr_dt a)) (slot_of sl KArray KPCoor)
+  | KPSol =>
+      (ptset_count sl KPSol <=? 1)%nat &&
+      forallb (fun a => dt_in dts_field (arr_dt a) &&
+                        match ptset_count sl KPSol with
+                        | O => zs_eqb (arr_dims a) [nth 0 (cx_zsize c) 0]
+                        | _ => (length (arr_dims a) =? 1)%nat
+                        end) (slot_of sl KArray KPSol)
+  | KSubReg => (ptset_count sl KSubReg <=? 1)%nat
+  (* cgi_read_bprop: exactly SurfaceArea <R4, 1> and RegionName <C1, 32>; cgi_read_cprop: exactly the three R4 vectors *)
+  | KArea =>
+      arrays_loadable sl k && (length (slot_of sl KArray KArea) =? 2)%nat &&
+      forallb (fun a => (bytes_eqb (rname a) (s "SurfaceArea") && bytes_eqb (arr_dt a) dR4 && zs_eqb (arr_dims a) [1]) ||
+                        (bytes_eqb (rname a) (s "RegionName") && bytes_eqb (arr_dt a) dC1 && zs_eqb (arr_dims a) [32]))
+              (slot_of sl KArray KArea)
+  | KPeriodic =>
+      arrays_loadable sl k && (length (slot_of sl KArray KPeriodic) =? 3)%nat &&
+      forallb (fun a => (bytes_eqb (rname a) (s "RotationCenter") || bytes_eqb (rname a) (s "RotationAngle") ||
+                         bytes_eqb (rname a) (s "Translation")) && bytes_eqb (arr_dt a) dR4 && zs_eqb (arr_dims a) [cx_phys c])
+              (slot_of sl KArray KPeriodic)
   | KBase => match v with VInts _ [cd; pd] => (1 <=? cd) && (cd <=? 3) && (1 <=? pd) && (pd <=? 3) | _ => false end
   | KZone =>
       let zt := match slot_of sl KZoneType KZone with R _ _ (VEnum i) _ :: _ => i | _ => STRUCTURED end in
@@ -715,6 +838,7 @@ Definition ctx_pre_r (k : kind) (c : ctx) (sl : list (list rnode)) : ctx :=
   | CxZone =>
       let zt := match slot_of sl KZoneType k with R _ _ (VEnum i) _ :: _ => i | _ => STRUCTURED end in
       mkCtx (cx_cell c) (cx_phys c) (idim_of c zt) []
+  | CxPZone => mkCtx (cx_cell c) (cx_phys c) 1 []
   | _ => c
   end.
 Fixpoint api_fill (c : ctx) (r : rnode) : rnode :=
@@ -803,7 +927,14 @@ Inductive fnid :=
 | F_descriptor | F_dataclass | F_units | F_unitsfull | F_exponents | F_expfull | F_conversion | F_ordinal
 | F_user_data | F_array | F_rind | F_gridlocation | F_ptset
 | F_discrete | F_integral | F_state | F_convergence | F_rigid_motion | F_arbitrary_motion | F_biter | F_ziter
-| F_simulation_type | F_gravity | F_axisym | F_rotating | F_equationset | F_governing.
+| F_simulation_type | F_gravity | F_axisym | F_rotating | F_equationset | F_governing
+| F_particle | F_particle_coord_node | F_particle_coord | F_particle_sol | F_particle_sol_ptset | F_particle_field | F_piter
+| F_particle_equationset | F_particle_governing | F_particle_model
+| F_subreg_ptset | F_subreg_bcname | F_subreg_gcname
+| F_bc_wallfunction | F_bc_area | F_periodic | F_average
+| F_model | F_diffusion
+| F_bcdataset | F_node_family | F_multifam
+| F_sol_ptset | F_discrete_ptset.
 Scheme Equality for fnid.
 Definition all_fns : list (fnid * bytes) :=
   [(F_base, s "base"); (F_zone, s "zone"); (F_grid, s "grid"); (F_coord, s "coord"); (F_section, s "section");
@@ -819,13 +950,22 @@ Definition all_fns : list (fnid * bytes) :=
    (F_discrete, s "discrete"); (F_integral, s "integral"); (F_state, s "state"); (F_convergence, s "convergence");
    (F_rigid_motion, s "rigid_motion"); (F_arbitrary_motion, s "arbitrary_motion"); (F_biter, s "biter");
    (F_ziter, s "ziter"); (F_simulation_type, s "simulation_type"); (F_gravity, s "gravity"); (F_axisym, s "axisym");
-   (F_rotating, s "rotating"); (F_equationset, s "equationset"); (F_governing, s "governing")].
+   (F_rotating, s "rotating"); (F_equationset, s "equationset"); (F_governing, s "governing");
+   (F_particle, s "particle"); (F_particle_coord_node, s "particle_coord_node"); (F_particle_coord, s "particle_coord");
+   (F_particle_sol, s "particle_sol"); (F_particle_sol_ptset, s "particle_sol_ptset"); (F_particle_field, s "particle_field");
+   (F_piter, s "piter"); (F_particle_equationset, s "particle_equationset"); (F_particle_governing, s "particle_governing");
+   (F_particle_model, s "particle_model"); (F_subreg_ptset, s "subreg_ptset"); (F_subreg_bcname, s "subreg_bcname");
+   (F_subreg_gcname, s "subreg_gcname"); (F_bc_wallfunction, s "bc_wallfunction"); (F_bc_area, s "bc_area");
+   (F_periodic, s "periodic"); (F_average, s "average"); (F_model, s "model"); (F_diffusion, s "diffusion");
+   (F_bcdataset, s "bcdataset"); (F_node_family, s "node_family"); (F_multifam, s "multifam");
+   (F_sol_ptset, s "sol_ptset"); (F_discrete_ptset, s "discrete_ptset")].
 
 Definition fn_returns_index (f : fnid) : bool :=
   match f with
   | F_base | F_zone | F_grid | F_coord | F_section | F_poly_section | F_sol | F_field | F_boco | F_dataset
   | F_1to1 | F_conn | F_hole | F_family | F_fambc | F_geo | F_part | F_discrete | F_rigid_motion
-  | F_arbitrary_motion => true
+  | F_arbitrary_motion | F_particle | F_particle_coord_node | F_particle_coord | F_particle_sol | F_particle_sol_ptset
+  | F_particle_field | F_subreg_ptset | F_subreg_bcname | F_subreg_gcname | F_node_family | F_sol_ptset | F_discrete_ptset => true
   | _ => false
   end.
 
@@ -883,6 +1023,8 @@ Definition base_cell (root : ent) (p : path) : Z :=
   | (KBase, b) :: _ => match get_path [(KBase, b)] root with Some (E _ _ (VInts _ [cd; _]) _) => cd | _ => 0 end
   | _ => 0
   end.
+
+Definition name_of_fix (k : kind) : bytes := match k_fixname (spec k) with Some n => n | None => [] end.
 
 Definition effect_of (root : ent) (cl : call) : option effect :=
   let p := c_at cl in
@@ -1035,6 +1177,74 @@ Definition effect_of (root : ent) (cl : call) : option effect :=
       Some (mkEff p None [E KEqSet (s "FlowEquationSet") VNone
                             (if eqdim =? 0 then [] else [E KEqDim (s "EquationDimension") (VInts [1] [eqdim]) []])] KEqSet)
   | F_governing, [ty], [], [] => Some (mkEff p None [E KGoverning (s "GoverningEquations") (VEnum ty) []] KGoverning)
+  (* ---- tranche 3: particles *)
+  | F_particle, [n], [], [] => Some (mkEff p None [E KPZone nm (VInts [1] [n]) []] KPZone)
+  | F_particle_coord_node, [], [], [] => Some (mkEff p None [E KPCoor nm VNone []] KPCoor)
+  | F_particle_coord, [], [], [a] =>
+      (* cg_particle_coord_write: ParticleCoordinates created on demand (cgi_get_particle_pcoorPC), then the DataArray_t *)
+      Some (mkEff (p ++ [(KPCoor, 0)]) (Some (KPCoor, s "ParticleCoordinates")) [arr1 KArray nm a] KArray)
+  | F_particle_sol, [], [], [] => Some (mkEff p None [E KPSol nm VNone []] KPSol)
+  | F_particle_sol_ptset, ptype :: npnts :: pnts, [], [] =>
+      Some (mkEff p None [E KPSol nm VNone (ptset_ent ptype 1 npnts pnts)] KPSol)
+  | F_particle_field, [], [], [a] => Some (mkEff p None [arr1 KArray nm a] KArray)
+  | F_piter, [], [], [] => Some (mkEff p None [E KPIter nm VNone []] KPIter)
+  | F_particle_equationset, [eqdim], [], [] =>
+      Some (mkEff p None [E KPEqSet (s "ParticleEquationSet") VNone
+                            (if eqdim =? 0 then [] else [E KEqDim (s "EquationDimension") (VInts [1] [eqdim]) []])] KPEqSet)
+  | F_particle_governing, [ty], [], [] =>
+      Some (mkEff p None [E KPGoverning (s "ParticleGoverningEquations") (VEnum ty) []] KPGoverning)
+  | F_particle_model, [which; ty], [], [] =>
+      match nth_error [KPModColl; KPModBreak; KPModForce; KPModWall; KPModPhase] (Z.to_nat which) with
+      | Some k => Some (mkEff p None [E k (name_of_fix k) (VEnum ty) []] k)
+      | None => None
+      end
+  (* zone sub-regions: the node (RegionCellDimension), then the point set and the location (if not Vertex) / the name *)
+  | F_subreg_ptset, dimension :: loc :: ptype :: npnts :: pnts, [], [] =>
+      Some (mkEff p None [E KSubReg nm (VInts [1] [dimension])
+                            (ptset_ent ptype (zone_idim root p) npnts pnts ++ loc_kid loc)] KSubReg)
+  | F_subreg_bcname, [dimension], [bc], [] =>
+      Some (mkEff p None [E KSubReg nm (VInts [1] [dimension]) [E KDescr (s "BCRegionName") (VStr bc) []]] KSubReg)
+  | F_subreg_gcname, [dimension], [gc], [] =>
+      Some (mkEff p None [E KSubReg nm (VInts [1] [dimension]) [E KDescr (s "GridConnectivityRegionName") (VStr gc) []]] KSubReg)
+  (* BC / connectivity properties: the property container is created on demand *)
+  | F_bc_wallfunction, [ty], [], [] =>
+      Some (mkEff (p ++ [(KBProp, 1)]) (Some (KBProp, s "BCProperty"))
+                  [E KWallFn (s "WallFunction") VNone [E KWallFnType (s "WallFunctionType") (VEnum ty) []]] KWallFn)
+  | F_bc_area, [ty], [region], [surface] =>
+      (* cg_bc_area_write: AreaType, SurfaceArea <R4, 1>, RegionName blank padded to <C1, 32> *)
+      Some (mkEff (p ++ [(KBProp, 1)]) (Some (KBProp, s "BCProperty"))
+                  [E KArea (s "Area") VNone
+                     [E KAreaType (s "AreaType") (VEnum ty) []; arr1 KArray (s "SurfaceArea") surface;
+                      E KArray (s "RegionName") (VArr dC1 [32] (pad32 region)) []]] KArea)
+  | F_periodic, [], [], [ce; an; tr] =>
+      Some (mkEff (p ++ [(KCProp, 1)]) (Some (KCProp, s "GridConnectivityProperty"))
+                  [E KPeriodic (s "Periodic") VNone
+                     [arr1 KArray (s "RotationCenter") ce; arr1 KArray (s "RotationAngle") an; arr1 KArray (s "Translation") tr]]
+                  KPeriodic)
+  | F_average, [ty], [], [] =>
+      Some (mkEff (p ++ [(KCProp, 1)]) (Some (KCProp, s "GridConnectivityProperty"))
+                  [E KAverage (s "AverageInterface") VNone [E KAverageType (s "AverageInterfaceType") (VEnum ty) []]] KAverage)
+  (* equation-set models: the node is named after its label *)
+  | F_model, [which; ty], [], [] =>
+      match nth_error [KModGas; KModVisc; KModCond; KModClosure; KModTurb; KModRelax; KModChem; KModEMElec; KModEMMagn;
+                       KModEMCond] (Z.to_nat which) with
+      | Some k => Some (mkEff p None [E k (name_of_fix k) (VEnum ty) []] k)
+      | None => None
+      end
+  | F_diffusion, vals, [], [] => Some (mkEff p None [E KDiffusion (s "DiffusionModel") (VInts [lenZ vals] vals) []] KDiffusion)
+  (* family tree *)
+  | F_bcdataset, [bct; ty], [], [] =>
+      (* cg_bcdataset_write at a FamilyBC_t position: FamilyBCDataSet_t, then the BCData_t of the requested kind *)
+      Some (mkEff p None [E KFamBCDataSet nm (VEnum bct)
+                            [if ty =? 2 then E KBCDataD (s "DirichletData") VNone [] else E KBCDataN (s "NeumannData") VNone []]]
+                  KFamBCDataSet)
+  | F_node_family, [], [], [] => Some (mkEff p None [E KFamily nm VNone []] KFamily)
+  | F_multifam, [], [fam], [] => Some (mkEff p None [E KAddFamName nm (VStr fam) []] KAddFamName)
+  (* point-set solutions and discrete data: the node, the point set, the location (if not Vertex) *)
+  | F_sol_ptset, loc :: ptype :: npnts :: pnts, [], [] =>
+      Some (mkEff p None [E KSol nm VNone (ptset_ent ptype (zone_idim root p) npnts pnts ++ loc_kid loc)] KSol)
+  | F_discrete_ptset, loc :: ptype :: npnts :: pnts, [], [] =>
+      Some (mkEff p None [E KDiscrete nm VNone (ptset_ent ptype (zone_idim root p) npnts pnts ++ loc_kid loc)] KDiscrete)
   | _, _, _, _ => None
   end.
 
